@@ -138,6 +138,7 @@ type FuncCtx struct {
 	inAtCall      bool
 	atLit         map[*Clause]*ast.CallExpr
 	renames       map[string]string // baseline local name -> current name (pure renaming)
+	sliceAlias    map[*types.Var]bool // local slice assigned from another slice (element, sub-slice, variable)
 	specPostDepth int
 	loopEntry     *State
 	coveredLoops  map[int]bool
